@@ -29,7 +29,7 @@ import (
 //        real HttpServer (+ EnableTokenIntrospection when enabled); the limiter window is set to one
 //        hour through the verif hook so only scripted `shift`s move its clock
 //   shift <ns>                       advance the limiter's clock
-//   req <auth> <cl: auto|n> xBODY <res>
+//   req <auth> <cl: auto|n> xBODY <res> [t:xREMOTEADDR:xXFF:xUSERAGENT]
 //        POST {prefix}/__introspect_token__ in-process (hs.ServeHTTP) with a body reader that records
 //        whether it was touched
 //   <auth> = anon | fail-value | fail-unavail | fail-other | ok:xPRINCIPAL | unauth:xPRINCIPAL
@@ -254,7 +254,7 @@ func c26Exec(c *Case) {
 			env.shadowNow += d
 			c.Out(l, "ok")
 		case "req":
-			if len(f) != 5 || env == nil {
+			if (len(f) != 5 && len(f) != 6) || env == nil {
 				c.Out(l, "err:bad-script")
 				continue
 			}
@@ -297,6 +297,24 @@ func c26Req(c *Case, env *c26Env, l string, f []string) {
 	req.ContentLength = cl
 	req.Header.Set("Content-Type", "application/json")
 	req.Header.Set("X-Verif-Auth", auth)
+	if len(f) == 6 {
+		// transport identity, independent of the caller principal: t:xREMOTEADDR:xFORWARDEDFOR:xUSERAGENT
+		// (the model never sees it: the budget belongs to the principal, however it connects)
+		if tf := strings.Split(f[5], ":"); len(tf) == 4 && tf[0] == "t" {
+			if ra := UnXS(tf[1]); ra != "" {
+				req.RemoteAddr = ra
+			}
+			if xf := UnXS(tf[2]); xf != "" {
+				req.Header.Set("X-Forwarded-For", xf)
+				req.Header.Set("Forwarded", "for="+xf)
+				req.Header.Set("X-Real-IP", xf)
+			}
+			if ua := UnXS(tf[3]); ua != "" {
+				req.Header.Set("User-Agent", ua)
+			}
+			c.Stat("transport-identity-varied")
+		}
+	}
 	rec := httptest.NewRecorder()
 	env.hs.ServeHTTP(rec, req)
 	resp := rec.Result()
